@@ -211,7 +211,9 @@ fn replay(args: &[String]) -> i32 {
         },
     };
     install_hook();
-    let mut env = Env::new(scratch_root(&scratch, rp.scenario.seed));
+    // same nesting depth as a worker's scratch (`<scratch>/w<k>/r<seed>`), so that values that count
+    // the components of absolute paths (depth of rooted-glob entries) replay identically
+    let mut env = Env::new(scratch_root(&format!("{}/w0", scratch), rp.scenario.seed));
     let res = props::check(&rp.scenario, &mut env);
     env.finish();
     match res {
